@@ -63,3 +63,10 @@ package modproof
 //@ func (*ProofMod).Bytes
 //@   props C06
 //@   requires pf != nil && pf.W != nil && pf.A != nil && pf.B != nil
+
+//@ func NewProof
+//@   trusted prover side of the Paillier-Blum modulus proof (fourth roots modulo the own secret factors); only non-nil-ness of the result is used by callers
+//@   props C06 C10
+//@   requires N != nil && P != nil && Q != nil && rand != nil
+//@   ensures result1 == nil ==> (result0 != nil && fresh(result0) && result0.W != nil && result0.A != nil && result0.B != nil)
+//@   ensures result1 != nil ==> result0 == nil
